@@ -57,6 +57,7 @@ theorem execObj_ok (sqrt : W → W) (o : NetObj W) (hok : SessOK o.sess) (op : W
   cases op with
   | setMethod m => exact hok
   | setWeight x => exact hok
+  | subGeo src cut => cases src <;> exact hok
   | call op =>
     by_cases hm : o.mode = 1
     · cases op with
